@@ -685,6 +685,23 @@ impl<T: TypeConfig> LearnerState<T> {
         }
     }
 
+    /// A learner that resumes from the hard state (term, vote) it persisted before it stopped.
+    /// Without it the learner would be back at term 1 after every restart and accept a leader of
+    /// a term older than the one it had already seen.
+    pub fn new_with_hard_state(
+        node_id: u32,
+        node_config: Arc<RaftNodeConfig>,
+        hard_state_from_db: Option<super::HardState>,
+    ) -> Self {
+        LearnerState {
+            shared_state: SharedState::new(node_id, hard_state_from_db, None),
+            last_purged_index: None,
+            snapshot_in_progress: AtomicBool::new(false),
+            node_config,
+            _marker: PhantomData,
+        }
+    }
+
     /// Determines if logs can be safely purged up to the given index
     ///
     /// Per Raft §7: Learner independently purges logs after snapshot generation
